@@ -876,7 +876,68 @@ def o_env_no_error(scen, nat, msg):
                 signature=dict(op=scen["op"]["code"], what="operation fails under concurrent activity"))
 
 
+def _maint_setup(root, with_debris_link, stale_private):
+    """A plain cache directory with one published entry, optionally crash debris (a stale second link to the
+    published inode) and a stale private temp file; returns (cache dir, source file)."""
+    w = os.path.join(root, "w")
+    t = os.path.join(w, ".kismet_temp")
+    os.makedirs(t)
+    os.makedirs(os.path.join(root, "x"))
+    ka = os.path.join(w, "ka")
+    with open(ka, "w") as f:
+        f.write("value-50")
+    os.chmod(ka, 0o444)
+    old = (time.time() - 3 * 3600)
+    if with_debris_link:
+        os.link(ka, os.path.join(t, ".tmpdebris"))
+    os.utime(ka, (old, old))
+    if stale_private:
+        p = os.path.join(t, ".tmpstale")
+        with open(p, "w") as f:
+            f.write("partial")
+        os.utime(p, (old, old))
+    src = os.path.join(root, "x", "u0")
+    with open(src, "w") as f:
+        f.write("value-9")
+    return w, src
+
+
+def o_debris_mode(scen, nat, msg):
+    """C02: maintenance that collects crash debris (a stale link to a published inode) leaves the published file read-only."""
+    bad = []
+    for profile in ("debug", "release"):
+        root = nat.sandbox()
+        try:
+            w, src = _maint_setup(root, True, False)
+            nat.run(["plain", "set", w, 1, "kb", src], profile=profile)   # capacity 1: maintenance on every write
+            mode = os.stat(os.path.join(w, "ka")).st_mode & 0o777 if os.path.exists(os.path.join(w, "ka")) else None
+            if mode is not None and mode & 0o222:
+                bad.append((profile, "after maintenance collected the debris link, the published file has mode %o" % mode))
+        finally:
+            shutil.rmtree(root, ignore_errors=True)
+    return verdict(bad, dict(op=dict(code=16)), "published file made writable by temp-directory cleanup", "published file still read-only natively")
+
+
+def o_cleanup_race(scen, nat, msg):
+    """C05: a stale temp file that disappears under the cleaner (another participant removed it first) does not fail the write."""
+    bad = []
+    for profile in ("debug", "release"):
+        root = nat.sandbox()
+        try:
+            w, src = _maint_setup(root, False, True)
+            r = nat.run(["plain", "set", w, 1, "kb", src], profile=profile, strace=["-e", "inject=unlink,unlinkat:error=ENOENT:when=1"])
+            out = parse_out(r["out"])
+            hit = any(("unlink" in ln and "ENOENT" in ln and "INJECTED" in ln) for ln in r["strace"])
+            if hit and (out["result"] != "ok" or out["panic"]):
+                bad.append((profile, "the cleaner's unlink found the stale temp file gone and the write failed: result=%s kind=%s" % (out["result"], out["kind"])))
+        finally:
+            shutil.rmtree(root, ignore_errors=True)
+    return verdict(bad, dict(op=dict(code=16)), "a write fails because a competing cleaner removed a stale temp file first", "the write succeeds natively")
+
+
 ORACLES = [
+    (r"collecting crash debris never re-modes|a published file is never re-moded", o_debris_mode),
+    (r"temp cleanup succeeds when another participant removes", o_cleanup_race),
     (r"KV-C05: ", o_env_no_error),
     (r"KV-C17: application dot-files|KV-C17: application data next to the cache", o_dotfile_untouched),
     (r"KV-C17: temp files younger|KV-C02: temp files older", o_temp_age),
@@ -928,16 +989,25 @@ def replay(pid, rec, scratch):
         json.dump(doc, open(path, "w"), indent=1)
         return dict(reproduced=False, mode="scenario", path=path, detail="could not decode a scenario from the solver's trace")
     nat.build()
+    last = None
     for msg in msgs:
         for rx, fn in ORACLES:
             if re.search(rx, msg):
                 out = fn(scen, nat, msg)
                 if out is None:
                     continue
+                last = out
+                if not out["reproduced"]:
+                    continue   # another recipe registered for the same assertion may still reproduce it
                 doc["native"] = out
                 json.dump(doc, open(path, "w"), indent=1, default=str)
                 sig = dict(out.get("signature", {}), harness=u.name, assertions=msgs)
-                return dict(reproduced=out["reproduced"], mode="scenario", path=path, detail=out["detail"][:600], signature=sig)
+                return dict(reproduced=True, mode="scenario", path=path, detail=out["detail"][:600], signature=sig)
+    if last is not None:
+        doc["native"] = last
+        json.dump(doc, open(path, "w"), indent=1, default=str)
+        sig = dict(last.get("signature", {}), harness=u.name, assertions=msgs)
+        return dict(reproduced=False, mode="scenario", path=path, detail=last["detail"][:600], signature=sig)
     json.dump(doc, open(path, "w"), indent=1)
     return dict(reproduced=False, mode="scenario", path=path, detail="no native counterpart for: " + first)
 
